@@ -941,6 +941,22 @@ J_DepsConsistent ==
   \A p \in JPrefixes : LET R == Restore(p) IN
      \A t \in RPending(R) : \A d \in tinfo[t].deps : RView(R, d).st \notin {"Failed", "Canceled", "Aborted"}
 
+\* C12: pruning (event/journal/prune.rs) with the live jobs of the moment does not change what a restart restores
+LiveJobs == {j \in DOMAIN job : ~(~job[j].open /\ NonTerminal(job[j]) = {})}     \* !job.is_terminated()
+PruneOf(jr, live) ==
+  LET keep(ev) ==
+        CASE ev.k \in {"Submit", "JobCompleted", "JobCancel"} -> ev.j \in live
+          [] ev.k \in {"TaskStarted", "TaskFinished", "TaskFailed"} -> JobOf(ev.t) \in live
+          [] ev.k \in {"TasksCanceled", "TasksAborted"} -> \E i \in DOMAIN ev.ts : JobOf(ev.ts[i]) \in live
+          [] OTHER -> TRUE
+      trim(ev) == IF ev.k \in {"TasksCanceled", "TasksAborted"} THEN [ev EXCEPT !.ts = SelectSeq(@, LAMBDA t : JobOf(t) \in live)] ELSE ev
+      kept == SelectSeq(jr, keep)
+  IN [i \in DOMAIN kept |-> trim(kept[i])]
+J_PruneKeepsRestore ==
+  LET R1 == Restore(journal)  R2 == Restore(PruneOf(journal, LiveJobs)) IN R2.pn = "" /\ R2.jobs = R1.jobs
+\* ... and pruning twice is pruning once
+J_PruneIdempotent == PruneOf(PruneOf(journal, LiveJobs), LiveJobs) = PruneOf(journal, LiveJobs)
+
 (* C03 on the model.  Known finding dependent-submitted-after-dep-ended: a later submit into an open job may name a     *)
 (* dependency that already ended failed / canceled / aborted; on_new_tasks drops it silently and the dependent runs.   *)
 (* The model reproduces it (monitor `late`); every other way of starting a dependent of a dead task is excluded.      *)
